@@ -410,7 +410,9 @@ where
                     format!("{} accepted {} but the result re-encodes to {} ({})", name, keys::hex(bytes), e.to_hex_string(), m),
                 );
             }
-            if m.script_size() != bytes.len() {
+            // (with MAX parameters a context accepts key kinds whose size it does not model,
+            // e.g. uncompressed keys in Segwitv0: outside the property's domain)
+            if name != "decode_max" && m.script_size() != bytes.len() {
                 return fail(&format!("script-size-after-decode/{}", name), format!("script_size {} vs {} bytes", m.script_size(), bytes.len()));
             }
         }
@@ -439,6 +441,14 @@ impl Check for C04 {
         match tier {
             Tier::Quick => vec![("values", 60_000, 300), ("bytes", 120_000, 300)],
             Tier::Thorough => vec![("values", 4_000_000, 500), ("bytes", 8_000_000, 500)],
+        }
+    }
+    fn replay_raw(&self, kind: &str, data: &[u8]) -> Option<Result<(), Failure>> {
+        if kind == "rawscript" {
+            let mut rep = Report::default();
+            Some(decode_all_contexts(data, &mut rep))
+        } else {
+            None
         }
     }
     fn run_case(&self, lane: &str, src: &mut Src, rep: &mut Report) -> Result<(), Failure> {
@@ -498,4 +508,13 @@ impl Check for C04 {
         let _ = b(Node::True);
         Ok(())
     }
+}
+
+/// All four contexts on raw bytes (used by the libFuzzer target).
+pub fn decode_all_contexts(bytes: &[u8], rep: &mut Report) -> Result<(), Failure> {
+    decoders::<BareCtx>(bytes, rep, false)?;
+    decoders::<Legacy>(bytes, rep, false)?;
+    decoders::<Segwitv0>(bytes, rep, false)?;
+    decoders::<Tap>(bytes, rep, false)?;
+    Ok(())
 }
